@@ -322,6 +322,8 @@ package spec
 //@ specfn normHost(string, string) string
 
 // printing a record and parsing it back gives the record (assumed law of net/url on the records that occur here)
+// (an approximation: URL.String inserts a "/" between an authority and a relative path, and escapes; the records that
+//  occur in this package have an empty or absolute path whenever they have an authority)
 //@ axiom forall s string, h string, p string, q string, f string :: urlOK(urlStr(s, h, p, q, f)) && urlScheme(urlStr(s, h, p, q, f)) == s
 //@        && urlHost(urlStr(s, h, p, q, f)) == h && urlPath(urlStr(s, h, p, q, f)) == p && urlQuery(urlStr(s, h, p, q, f)) == q && urlFrag(urlStr(s, h, p, q, f)) == f
 // parsing then printing a string whose record is already normal gives the string back
@@ -643,7 +645,7 @@ package spec
 // decoding a generic JSON value into a typed target through a JSON round trip: a deep copy (assumed: swag)
 //@ ext github.com/go-openapi/swag.DynamicJSONToStruct
 //@   params data, target
-//@   assigns region(payload(target)), ghost(decodedFrom)
+//@   assigns region(payload(target)), modelmaps(), ghost(decodedFrom)
 //@   ensures (result == nil) == decodeOK(data, dynType(target))
 //@   ensures result == nil ==> decodedFrom == upd(old(decodedFrom), payload(target), data)
 //@   ensures result != nil ==> decodedFrom == old(decodedFrom)
@@ -677,7 +679,7 @@ package spec
 //@   property C05, C08, C18
 //@   requires wfResolver(r) && ref != nil
 //@   requires urlOK(basePath)
-//@   assigns  region(payload(target)), ghost(decodedFrom, cacheDom, cacheDoc, calls, failures)
+//@   assigns  region(payload(target)), modelmaps(), ghost(decodedFrom, cacheDom, cacheDoc, calls, failures)
 //@   defines  failures == old(failures) + (result != nil ? 1 : 0)
 //@   ensures  [C05] needs-pointer @@ !reflect_is_ptr(target) ==> result != nil
 //@   ensures  [C05] zero-ref @@ old(ref.referenceURL == nil) && reflect_is_ptr(target) ==> result == nil && decodedFrom == old(decodedFrom)
@@ -781,3 +783,67 @@ package spec
 //@   ensures  base-kept @@ expandOptions != nil && old(expandOptions.RelativeBase) != "" ==> expandOptions.RelativeBase == old(expandOptions.RelativeBase) && cacheDom == old(cacheDom) && cacheDoc == old(cacheDoc)
 //@   ensures  base-defaulted @@ result.options.RelativeBase != ""
 //@   ensures  [C18] cache-monotone @@ forall u string :: u != normBase(".root") && old(cacheDom[u]) ==> cacheDom[u] && cacheDoc[u] == old(cacheDoc[u])
+
+// ---- the recursion: common vocabulary
+// okBase(b): a base location as the expander threads it (parses, has a scheme)
+//@ define okBase(b string) bool = urlOK(b) && urlScheme(b) != ""
+//@ define strict(r *schemaLoader) bool = !r.options.ContinueOnError
+// the stack of parent refs holds pairwise distinct strings: with a finite universe of canonical refs this bounds the recursion depth (C04)
+//@ define distinctStr(c []string) bool = forall i int, j int :: 0 <= i && i < j && j < len(c) ==> c[i] != c[j]
+//@ define memoGrows(r *schemaLoader) bool = true
+
+//@ func (*schemaLoader).setSchemaID
+//@   property C04, C18
+//@   requires wfResolver(r) && okBase(basePath)
+//@   assigns  r.context.rootID, ghost(cacheDom, cacheDoc)
+//@   ensures  result0 == normURI((hasSuffix(id, "/") ? id + "placeholder.json" : id), basePath)
+//@   ensures  [C18] cache-dom-monotone @@ forall u string :: old(cacheDom[u]) ==> cacheDom[u]
+//@   ensures  [C18] only-id-key-written @@ forall u string :: u != result0 && old(cacheDom[u]) ==> cacheDoc[u] == old(cacheDoc[u])
+
+//@ func getRefAndSchema
+//@   property C04
+//@   assigns  nothing
+//@   ensures  holds(input, "*Parameter") && asPtr(input, "*Parameter") != nil ==> result2 == nil && result0 == &asPtr(input, "*Parameter").Ref && result1 == asPtr(input, "*Parameter").Schema
+//@   ensures  holds(input, "*Response") && asPtr(input, "*Response") != nil ==> result2 == nil && result0 == &asPtr(input, "*Response").Ref && result1 == asPtr(input, "*Response").Schema
+//@   ensures  (holds(input, "*Parameter") || holds(input, "*Response")) && payload(input) == nil ==> result2 == nil && result0 == nil && result1 == nil
+//@   ensures  !holds(input, "*Parameter") && !holds(input, "*Response") ==> result2 != nil
+
+// what every function of the recursion preserves about the loader it is given
+//@ define loaderKept(r *schemaLoader, o *ExpandOptions, c ResolutionCache, x *resolverContext, coe bool, skip bool, abs bool) bool =
+//@    wfResolver(r) && r.options == o && r.cache == c && r.context == x && r.options.ContinueOnError == coe && r.options.SkipSchemas == skip && r.options.AbsoluteCircularRef == abs
+
+// the object a reference is decoded into is separate from the loader's own objects and from the stack of parent refs
+//@ define sepFrom(p ptr, r *schemaLoader, parentRefs []string) bool = obase(p) != obase(r) && obase(p) != obase(r.options) && obase(p) != obase(r.context) && obase(p) != obase(sliceArr(parentRefs))
+
+//@ func (*schemaLoader).deref
+//@   property C04, C08, C18
+//@   requires wfResolver(r) && canonBase(basePath)
+//@   requires sepFrom(payload(input), r, parentRefs) && allocated(payload(input))
+//@   requires [C04] distinct-stack @@ distinctStr(parentRefs)
+//@   assigns  region(payload(input)), modelmaps(), spare(parentRefs), map(r.context.circulars), ghost(decodedFrom, cacheDom, cacheDoc, calls, failures)
+//@   requires holds(input, "*Schema") || holds(input, "*Parameter") || holds(input, "*Response") || holds(input, "*PathItem")
+//@   requires payload(input) != nil
+//@   ensures  kept @@ loaderKept(r, old(r.options), old(r.cache), old(r.context), old(r.options.ContinueOnError), old(r.options.SkipSchemas), old(r.options.AbsoluteCircularRef))
+//@   ensures  [C08] failures-monotone @@ failures >= old(failures)
+//@   ensures  [C08] strict-propagates @@ old(strict(r)) && failures > old(failures) ==> result != nil
+//@   ensures  [C08] no-spurious-error @@ result != nil ==> failures > old(failures)
+//@   ensures  [C08] continue-silent @@ !old(strict(r)) ==> result == nil
+//@   ensures  [C18] cache-dom-monotone @@ forall u string :: old(cacheDom[u]) ==> cacheDom[u]
+//@   ensures  [C03] memo-monotone @@ forall k string :: old(has(r.context.circulars, k)) ==> has(r.context.circulars, k)
+//@   ensures  stack-kept @@ forall i int :: 0 <= i && i < len(parentRefs) ==> parentRefs[i] == old(parentRefs[i])
+
+// a base location as the expander threads it: canonical, and for non-file schemes with a host
+//@ define canonBase(b string) bool = urlOK(b) && urlScheme(b) != "" && hasPrefix(urlPath(b), "/") && pathClean(urlPath(b)) == urlPath(b)
+//@    && normHost(urlScheme(b), urlHost(b)) == urlHost(b) && (urlScheme(b) != "file" ==> urlHost(b) != "")
+//@ define remoteOf(x string) string = urlStr(urlScheme(x), urlHost(x), urlPath(x), urlQuery(x), "")
+
+// the canonical string of a reference made from string x (record normalised as jsonreference does)
+//@ define canonStr(x string) string = urlStr(urlScheme(x), normHost(urlScheme(x), urlHost(x)), dedupSlashes(urlPath(x)), urlQuery(x), urlFrag(x))
+
+//@ func verifLemmaNormIdem
+//@   property C04
+//@   requires canonBase(base)
+//@   ensures  idempotent @@ result0 == result1
+//@   ensures  names @@ result0 == canonStr(normURI(s, base))
+//@   law      norm-idempotent @@ normURI(canonStr(normURI(s, base)), base) == canonStr(normURI(s, base))
+//@   law      norm-canonical @@ hasPrefix(urlPath(normURI(s, base)), "/") ==> canonBase(remoteOf(canonStr(normURI(s, base))))
